@@ -43,3 +43,48 @@ func VerifCommitToVoteList(cvs module.CommitVoteSet, height int64, bid []byte,
 	validators module.ValidatorList, dbase db.Database) (*VoteList, error) {
 	return cvs.(*CommitVoteList).toVoteList(height, bid, nil, validators, module.ZeroNTSHashEntryList{}, dbase)
 }
+
+// VerifC05ProcessBlockAccepts mirrors, line by line, what consensus.processBlock
+// does with the votes of a fast-synced block, without a running engine:
+// decode the commit vote list, convert it with toVoteListWithBlock, add every
+// vote to a heightVoteSet at the signer's validator index, ask the precommit
+// vote set of the list's round for the +2/3 part set id and compare it with
+// the part set id of the received block. preIdx/pre are precommits/prevotes
+// that were already in the height vote set (received from the network before).
+// Returns the stage at which processBlock would call br.Reject(), or "accept".
+func VerifC05ProcessBlockAccepts(votesBytes []byte, blk module.BlockData, prevBlk module.Block,
+	validators module.ValidatorList, dbase db.Database, blockPSID *PartSetID,
+	preIdx []int, pre []*VoteMessage) string {
+	var hvs heightVoteSet
+	hvs.reset(validators.Len())
+	for i, m := range pre {
+		hvs.add(preIdx[i], m)
+	}
+
+	cvl := NewCommitVoteSetFromBytes(votesBytes)
+	if cvl == nil {
+		return "reject-decode"
+	}
+	votes := cvl.(*CommitVoteList)
+	vl, err := votes.toVoteListWithBlock(blk, prevBlk, dbase)
+	if err != nil {
+		return "reject-tovotelist"
+	}
+	for i := 0; i < vl.Len(); i++ {
+		m := vl.Get(i)
+		index := validators.IndexOf(m.address())
+		if index < 0 {
+			return "reject-signer"
+		}
+		hvs.add(index, m)
+	}
+	precommits := hvs.votesFor(votes.Round, VoteTypePrecommit)
+	id, ok := precommits.getOverTwoThirdsPartSetID()
+	if !ok {
+		return "reject-noquorum"
+	}
+	if !blockPSID.Equal(id) {
+		return "reject-partset"
+	}
+	return "accept"
+}
